@@ -315,7 +315,23 @@ func GoNamed(name string, fn func()) *Thread {
 		return nil
 	}
 	if name == "" {
+		// name the thread after the function containing the go statement
 		name = fmt.Sprintf("t%d", len(s.threads))
+		for skip := 2; skip < 5; skip++ {
+			pc, _, _, ok := runtime.Caller(skip)
+			if !ok {
+				break
+			}
+			fn := runtime.FuncForPC(pc).Name()
+			if strings.HasPrefix(fn, "verif/engine/vsched.") {
+				continue
+			}
+			if i := strings.LastIndex(fn, "/"); i >= 0 {
+				fn = fn[i+1:]
+			}
+			name += "@" + fn
+			break
+		}
 	}
 	t := s.newThread(name, fn)
 	t.op = &Op{kind: opReady, desc: "start"}
